@@ -376,6 +376,12 @@ func (ts *TestScript) cmdSkip(neg bool, args []string) {
 	}
 	ts.cmdWait(false, nil)
 
+	if ts.failed {
+		// With ContinueOnError an earlier line has already failed:
+		// skipping now would report the script as skipped and lose
+		// that failure.
+		ts.t.FailNow()
+	}
 	if len(args) == 1 {
 		ts.t.Skip(args[0])
 	}
